@@ -281,6 +281,22 @@ theorem XI.step {c : CS} {t : T} (h : XI c t) (hi : Inv (abs c)) (hf : c.fail = 
     refine ⟨fun b => ((hfl b).1).trans (h.h b), hr.trans h.r, fun b => ((hfl b).2).trans (h.v b), ?_⟩
     intro a ha
     exact dom_mono (makeAtom_steps c cond true) hi a (h.m a (hr ▸ ha))
+  | acycEdge a b cond =>
+    simp only [T.step]
+    rw [apply_edge_eq c hf]
+    have hp : ∀ q, hd (pass c (.acycEdge a b cond)) q = hd c q ∧ ex (pass c (.acycEdge a b cond)) q = ex c q := by
+      intro q; unfold pass; split
+      · exact flags_emit c _ q
+      · exact ⟨rfl, rfl⟩
+    have hpe : (pass c (.acycEdge a b cond)).externs = c.externs := by unfold pass; split <;> rfl
+    have hpa : abs (pass c (.acycEdge a b cond)) = abs c := by unfold pass; split <;> rfl
+    have hfl := flags_makeAtom (pass c (.acycEdge a b cond)) cond true
+    have hr := makeAtom_externs (pass c (.acycEdge a b cond)) cond true
+    refine ⟨fun q => ((hfl q).1).trans ((hp q).1.trans (h.h q)), (hr.trans hpe).trans h.r, fun q => ((hfl q).2).trans ((hp q).2.trans (h.v q)), ?_⟩
+    intro x hx'
+    have hst := makeAtom_steps (pass c (.acycEdge a b cond)) cond true
+    rw [hpa] at hst
+    exact dom_mono hst hi x (h.m x (hpe ▸ hr ▸ hx'))
   | external a v =>
     simp only [T.step]
     have hrm := rest_mapAtom c a
